@@ -333,6 +333,16 @@ def run(ctx, eng):
         ctx.ob('ORD.send-path', fi.qual, 'connection machine, stream, build, '
                'one emit', n > 0 and not bad, '; '.join(sorted(set(bad))) or
                '%d successful paths' % n, node=fi.node)
+    # ---- settings changes racing traffic: what one side may send after an
+    # acknowledged change, the other side must accept at once
+    from .c21 import check_coh_frame_size
+    from .c03 import check_settings_delta
+    from .c11 import check_apply, REMOTE_APPLY, LOCAL_APPLY
+    check_coh_frame_size(ctx, eng)
+    check_settings_delta(ctx, eng)
+    check_apply(ctx, eng, H + '_acknowledge_settings', REMOTE_APPLY,
+                'remote')
+    check_apply(ctx, eng, H + '_local_settings_acked', LOCAL_APPLY, 'local')
     ctx.assume('HPACK round-trip fidelity, byte equality of bodies and '
                'programs of unbounded length are not decided; arbitrary '
                'chunking is decided under C21')
